@@ -490,7 +490,9 @@ def rule_every_entry_yielded(ctx, rule_id="C08.descends-into-objects"):
                 continue
             n += 1
             hdr = g.node_of(lp)
-            starts = [s_ for s_, lab in hdr.succ if lab == "true"]
+            starts = [s_ for s_, lab in hdr.succ if lab == "loop"]
+            if not starts:
+                raise AnalysisError("selector walk: loop body entry not found in the flow graph")
             ynodes = {g.node_of(y) for y in own}
             bypass = None
             for st_ in starts:
